@@ -209,8 +209,44 @@ fn mutate_json(doc: &J, rng: &mut Rng) -> Option<(J, String)> {
 }
 
 /// an accepted Context text must re-serialize, be well-formed and round-trip
+/// the harness's OWN table of fixed arities (node dependencies, graph dependencies); None = variable
+fn own_arity(op: &Operation) -> (Option<usize>, usize) {
+    use Operation::*;
+    let nodes = match op {
+        Input(_) | Zeros(_) | Ones(_) | Random(_) | Constant(_, _) | RandomPermutation(_) => Some(0),
+        Truncate(_) | Sum(_) | CumSum(_) | PermuteAxes(_) | InversePermutation | CuckooToPermutation | Sort(_) | Get(_) | GetSlice(_)
+        | Reshape(_) | NOP | PRF(_, _) | PermutationFromPRF(_, _) | A2B | B2A(_) | TupleGet(_) | NamedTupleGet(_) | Repeat(_)
+        | ArrayToVector | VectorToArray | DecomposeSwitchingMap(_) => Some(1),
+        Add | Subtract | Multiply | MixedMultiply | Dot | Matmul | VectorGet | Gather(_) | Iterate | CuckooHash | ApplyPermutation(_)
+        | Join(_, _) | JoinWithColumnMasks(_, _) | Gemm(_, _) => Some(2),
+        SegmentCumSum => Some(3),
+        _ => None,
+    };
+    let graphs = if matches!(op, Call | Iterate) { 1 } else { 0 };
+    (nodes, graphs)
+}
+
+/// first node of the context whose number of dependencies contradicts its operation
+fn arity_violation(c: &Context) -> Option<String> {
+    for g in c.get_graphs() {
+        for n in g.get_nodes() {
+            let op = n.get_operation();
+            let (an, ag) = own_arity(&op);
+            let nd = n.get_node_dependencies().len();
+            let gd = n.get_graph_dependencies().len();
+            if an.map_or(false, |a| a != nd) || ag != gd {
+                return Some(format!("graph {} node {} ({}) has {} node dependencies and {} graph dependencies", g.get_id(), n.get_id(), format!("{:?}", op).chars().take(40).collect::<String>(), nd, gd));
+            }
+        }
+    }
+    None
+}
+
 fn check_accepted_context(run: &mut Run, c: &Context, kind: &str, text: &str) {
     let d = || format!("mutation {} text={}", kind, trunc(text, 2000));
+    if let Some(why) = arity_violation(c) {
+        return fail(run, "C12:accepted-ill-formed:arity", format!("{} : {}", d(), why));
+    }
     let s = match ser_ctx(c) {
         Ok(s) => s,
         Err(e) => return fail(run, "C12:accepted-but-unserializable", format!("{} : {}", d(), e)),
@@ -279,6 +315,14 @@ fn corpus(rng: &mut Rng, run: &mut Run) -> Vec<String> {
         let a = gen_actx(rng);
         if let Ok(Ok(c)) = catch(|| build(&a)) {
             if let Ok(s) = ser_ctx(&c) {
+                v.push(s);
+            }
+        }
+    }
+    // Call and Iterate nodes (graph dependencies, fixed arity 2 of Iterate)
+    for _ in 0..3 {
+        if let Ok(Ok(fam)) = catch(|| call_iterate_family(rng)) {
+            if let Ok(s) = ser_ctx(&fam.ctx) {
                 v.push(s);
             }
         }
@@ -530,7 +574,83 @@ fn stream_typed_value_robustness(run: &mut Run) {
     }
 }
 
+/// directed: change the NUMBER of node / graph dependencies of every node of every corpus text (drop the
+/// last one, repeat the first one, append node 0, drop all); the result must be rejected, or accepted as a
+/// well-formed context — never a panic, never a node whose arity contradicts its operation
+fn stream_arity(run: &mut Run) {
+    let mut rng = run.rng("arity");
+    let texts = corpus(&mut rng, run);
+    let per_text = run.tier.scale(60, 400) as usize;
+    for t in &texts {
+        let payload: J = match payload_of(t) {
+            Some(p) => p,
+            None => continue,
+        };
+        let mut sites: Vec<(usize, usize)> = vec![];
+        if let Some(gs) = payload.get("graphs").and_then(|g| g.as_array()) {
+            for (gi, g) in gs.iter().enumerate() {
+                if let Some(ns) = g.get("nodes").and_then(|n| n.as_array()) {
+                    for k in 0..ns.len() {
+                        sites.push((gi, k));
+                    }
+                }
+            }
+        }
+        rng.shuffle(&mut sites);
+        // nodes with graph dependencies (Call / Iterate) first
+        sites.sort_by_key(|(gi, k)| payload["graphs"][*gi]["nodes"][*k]["graph_dependencies"].as_array().map_or(1, |a| if a.is_empty() { 1 } else { 0 }));
+        for (gi, k) in sites.into_iter().take(per_text) {
+            for field in ["node_dependencies", "graph_dependencies"] {
+                for variant in 0..4 {
+                    let mut p = payload.clone();
+                    let arr = match p["graphs"][gi]["nodes"][k][field].as_array_mut() {
+                        Some(a) => a,
+                        None => continue,
+                    };
+                    let name = match variant {
+                        0 => {
+                            if arr.is_empty() {
+                                continue;
+                            }
+                            arr.pop();
+                            "drop-last"
+                        }
+                        1 => {
+                            if arr.is_empty() {
+                                continue;
+                            }
+                            let x = arr[0].clone();
+                            arr.push(x);
+                            "repeat-first"
+                        }
+                        2 => {
+                            if k == 0 && field == "node_dependencies" || gi == 0 && field == "graph_dependencies" {
+                                continue;
+                            }
+                            arr.push(json!(0));
+                            "append-0"
+                        }
+                        _ => {
+                            if arr.len() < 2 {
+                                continue;
+                            }
+                            arr.clear();
+                            "drop-all"
+                        }
+                    };
+                    let op = payload["graphs"][gi]["nodes"][k]["operation"].to_string();
+                    let opname: String = op.chars().filter(|c| c.is_alphanumeric()).take(16).collect();
+                    run.count(&format!("arity:{}:{}", field, name));
+                    run.count(&format!("arity:op:{}", opname));
+                    try_context_text(run, &wrap(&p), t, &format!("arity:{}:{}@{}", field, name, opname), false);
+                }
+            }
+        }
+    }
+}
+
 pub fn stream_robustness(run: &mut Run) {
+    stream_arity(run);
     stream_context_robustness(run);
     stream_value_robustness(run);
     stream_typed_value_robustness(run);
